@@ -186,6 +186,7 @@ func (r *SizeLimitRotateRule) OutdatedFiles() []string {
 	}
 
 	files = excludeFile(files, r.filename)
+	files = r.onlyBackups(files, prefix, ext)
 	sort.Strings(files)
 
 	outdated := make(map[string]lang.PlaceholderType)
@@ -223,6 +224,26 @@ func (r *SizeLimitRotateRule) OutdatedFiles() []string {
 // ShallRotate 检查文件是否应该被轮换。
 func (r *SizeLimitRotateRule) ShallRotate(size int64) bool {
 	return r.maxSize > 0 && r.maxSize < size
+}
+
+// onlyBackups 只保留名字中间那段确实是备份时间戳的文件：通配模式还会匹配到只是同前缀的
+// 其他文件（如 app.log 旁边的 app-notes.log），它们不是备份，既不能删，
+// 也不能占用"最新的几个备份"的名额（否则真正的备份会被提前删掉）。
+func (r *SizeLimitRotateRule) onlyBackups(files []string, prefix, ext string) []string {
+	kept := files[:0]
+	for _, f := range files {
+		name := filepath.Base(f)
+		if r.gzip {
+			name = strings.TrimSuffix(name, gzipExt)
+		}
+		name = strings.TrimSuffix(name, ext)
+		name = strings.TrimPrefix(name, prefix+r.delimiter)
+		if _, err := time.Parse(fileTimeFormat, name); err == nil {
+			kept = append(kept, f)
+		}
+	}
+
+	return kept
 }
 
 // excludeFile 从 files 中去掉当前日志文件 name：
